@@ -4,7 +4,7 @@
 (* LinkResync action it names; what the links emitted during the step, the    *)
 (* answer of the step, the delivered message and the field-copy projection of *)
 (* both real channels / links must equal the model's state after the action   *)
-(* (Conform*), no link may have failed or left its main loop (NoLinkFailure), *)
+(* (Conform..), no link may have failed or left its main loop (NoLinkFailure), *)
 (* both real channels must hold the same commitment where their heights say   *)
 (* so (Mirror, on recorded values only), and at the end - queues drained -    *)
 (* every payment has the result its exit hop decided (ConformEnd).  The       *)
@@ -13,22 +13,22 @@ EXTENDS LinkResync, Json
 VARIABLES l, dm
 
 Trace == ndJsonDeserialize("trace.ndjson")
-Last == Trace[l - 1]
+Cur == Trace[l - 1]
 tvars == <<vars, l, dm>>
 
 Proj1(m) == [k |-> m.k, h |-> m.h, x |-> m.x, y |-> m.y]
 Proj(ms) == [i \in 1..Len(ms) |-> Proj1(ms[i])]
 NoMsg == [k |-> "none", h |-> 0, x |-> 0, y |-> 0]
-ToSet(s) == {s[i] : i \in 1..Len(s)}
+SetOf(s) == {s[i] : i \in 1..Len(s)}
 B(x) == IF x THEN 1 ELSE 0
 
 TInit == Init /\ l = 1 /\ dm = NoMsg
 Is(a) == l <= Len(Trace) /\ Trace[l].a = a /\ l' = l + 1
 
 Reset == /\ Is("Reset")
-         /\ sd' = [p \in P |-> Restart(Side0, p)]
-         /\ q' = [p \in P |-> <<M("reest", 0, 1, 0)>>]
-         /\ pays' = <<>> /\ nflap' = 0 /\ res' = "ok" /\ dm' = NoMsg
+         /\ sd' = Sd0
+         /\ q' = Q0
+         /\ pays' = <<>> /\ nflap' = 0 /\ nfee' = 0 /\ res' = "ok" /\ dm' = NoMsg
 
 TNext ==
   \/ Reset
@@ -37,36 +37,43 @@ TNext ==
   \/ Is("Tick") /\ Tick(Trace[l].p) /\ dm' = NoMsg
   \/ Is("Shutdown") /\ Shutdown(Trace[l].p) /\ dm' = NoMsg
   \/ Is("Flap") /\ Flap /\ dm' = NoMsg
+  \/ Is("Fee") /\ Fee(Trace[l].x) /\ dm' = NoMsg
+  \/ /\ Is("Decide") /\ Trace[l].x \in 1..Len(pays) /\ pays[Trace[l].x].inv = "accepted"
+     /\ Decide(Trace[l].x, IF Trace[l].y = 1 THEN "settled" ELSE "canceled") /\ dm' = NoMsg
   \/ /\ Is("Deliver") /\ Deliver(Trace[l].p)
      /\ dm' = IF q[O(Trace[l].p)] = <<>> THEN NoMsg ELSE Proj1(Head(q[O(Trace[l].p)]))
   \/ Is("End") /\ UNCHANGED vars /\ dm' = NoMsg
   \/ (l = Len(Trace) + 1 /\ UNCHANGED tvars)
 TSpec == TInit /\ [][TNext]_tvars
 
-Step == l > 1 /\ Last.a \notin {"Reset", "End"}
-AtEnd == l > 1 /\ Last.a = "End"
+Step == l > 1 /\ Cur.a \notin {"Reset", "End"}
+AtEnd == l > 1 /\ Cur.a = "End"
 
 \* ---- the property on the real links ------------------------------------------------
-NoLinkFailure == Step => \A p \in P : Last.fail[p] = "" /\ Last.st[p].exited = 0
+NoLinkFailure == Step => \A p \in P : Cur.fail[p] = "" /\ Cur.st[p].exited = 0
 
 \* ---- conformance ---------------------------------------------------------------------
-ConformRes == Step => Last.res = res
-ConformMsg == Step => Last.msg = dm
-ConformOut == Step => \A p \in P : Last.out[p] = Proj(sd[p].emit)
-ConformEv  == Step => \A p \in P : Last.ev[p] = sd[p].ev
-ConformQueue == Step => \A p \in P : Last.ql[p] = Len(q[p])
+ConformRes == Step => Cur.res = res
+ConformMsg == Step => Cur.msg = dm
+ConformOut == Step => \A p \in P : Cur.out[p] = Proj(sd[p].emit)
+ConformEv  == Step => \A p \in P : Cur.ev[p] = sd[p].ev
+ConformQueue == Step => \A p \in P : Cur.ql[p] = Len(q[p])
 ConformHeights == Step => \A p \in P :
-  /\ Last.st[p].lh = sd[p].hl /\ Last.st[p].rth = sd[p].hrt
-  /\ Last.st[p].rp = B(sd[p].hasRp)
-  /\ Last.st[p].rph = IF sd[p].hasRp THEN sd[p].hrt + 1 ELSE 0
-HtlcEq(list, set) == ToSet(list) = set /\ Len(list) = Cardinality(set)
+  /\ Cur.st[p].lh = sd[p].hl /\ Cur.st[p].rth = sd[p].hrt
+  /\ Cur.st[p].rp = B(sd[p].hasRp)
+  /\ Cur.st[p].rph = IF sd[p].hasRp THEN sd[p].hrt + 1 ELSE 0
+\* the fee rate of every commitment the real channels hold is the one of the last update_fee it covers
+ConformFee == Step => \A p \in P :
+  /\ Cur.st[p].lfee = FeeAt(sd, sd[p].lc) /\ Cur.st[p].rfee = FeeAt(sd, sd[p].rt)
+  /\ Cur.st[p].rpfee = IF sd[p].hasRp THEN FeeAt(sd, sd[p].rp) ELSE 0
+HtlcEq(list, set) == SetOf(list) = set /\ Len(list) = Cardinality(set)
 ConformHtlcs == Step => \A p \in P :
-  /\ HtlcEq(Last.st[p].lhtlc, Htlcs(sd, sd[p].lc))
-  /\ HtlcEq(Last.st[p].rhtlc, Htlcs(sd, sd[p].rt))
-  /\ HtlcEq(Last.st[p].rphtlc, IF sd[p].hasRp THEN Htlcs(sd, sd[p].rp) ELSE {})
+  /\ HtlcEq(Cur.st[p].lhtlc, Htlcs(sd, sd[p].lc))
+  /\ HtlcEq(Cur.st[p].rhtlc, Htlcs(sd, sd[p].rt))
+  /\ HtlcEq(Cur.st[p].rphtlc, IF sd[p].hasRp THEN Htlcs(sd, sd[p].rp) ELSE {})
 ConformLink == Step => \A p \in P :
   LET s == sd[p]
-      r == Last.st[p]
+      r == Cur.st[p]
   IN /\ r.npl = Len(s.own) - Tip(s)[p]
      /\ r.npr = s.rcv - s.lc[O(p)]
      /\ r.owe = B(Owe(s, p)) /\ r.need = B(Need(s, p)) /\ r.clean = B(Clean(sd, p))
@@ -75,8 +82,8 @@ ConformLink == Step => \A p \in P :
 
 \* both real channels hold the same commitment wherever their heights name the same one (recorded values only)
 Mirror == (Step \/ AtEnd) => \A p \in P :
-  LET a == Last.st[p]
-      b == Last.st[O(p)]
+  LET a == Cur.st[p]
+      b == Cur.st[O(p)]
   IN /\ a.lh = b.rth => (a.lbal = b.rrbal /\ a.lrbal = b.rbal /\ a.lhtlc = b.rhtlc)
      /\ (b.rp = 1 /\ a.lh = b.rph) => (a.lbal = b.rprbal /\ a.lrbal = b.rpbal /\ a.lhtlc = b.rphtlc)
      /\ a.lh \in {b.rth, b.rph}
@@ -84,10 +91,12 @@ Mirror == (Step \/ AtEnd) => \A p \in P :
 Expected(pay) == CASE pay.st = "refused" -> "refused"
                    [] pay.st = "mbfailed" -> "failed"
                    [] pay.kind = 1 -> "settled"
+                   [] pay.kind = 2 /\ pay.inv \in {"open", "accepted"} -> "pending"
+                   [] pay.kind = 2 /\ pay.inv = "settled" -> "settled"
                    [] OTHER -> "failed"
-EndQuiescent == (AtEnd /\ Last.alive = 1) => Quiescent
-ConformEnd == (AtEnd /\ Last.alive = 1 /\ Quiescent) =>
-  /\ Len(Last.res) = Len(pays)
-  /\ \A i \in 1..Len(pays) : /\ Last.res[i] = Expected(pays[i])
-                             /\ Last.pays[i][1] = Num(pays[i].p) /\ Last.pays[i][3] = pays[i].kind
+EndQuiescent == (AtEnd /\ Cur.alive = 1) => Quiescent
+ConformEnd == (AtEnd /\ Cur.alive = 1 /\ Quiescent) =>
+  /\ Len(Cur.res) = Len(pays)
+  /\ \A i \in 1..Len(pays) : /\ Cur.res[i] = Expected(pays[i])
+                             /\ Cur.pays[i][1] = Num(pays[i].p) /\ Cur.pays[i][3] = pays[i].kind
 =============================================================================
